@@ -136,7 +136,7 @@ Section Det.
       { apply H. intros Na p' c'.
         assert (Lb : live ic (first b) s = false).
         { rewrite Na in Hl. rewrite live_app in Hl. apply orb_false_iff in Hl. tauto. }
-        apply (IHb _ Pb Db p' s c' k Ks Lb). intros Nb. apply Hk. rewrite Na, Nb. reflexivity. }
+        apply (IHb _ Pb Db p' s c' k Ks Lb). intros Nb. apply Hk. cbn [nullable]. rewrite Na, Nb. reflexivity. }
       destruct (nullable a), (nullable b); simpl in *; lia.
     - apply andb_true_iff in Hp. destruct Hp as [Pa Pb].
       repeat (apply andb_true_iff in Hd; destruct Hd as [Hd ?]).
@@ -146,27 +146,27 @@ Section Det.
       cbn [mc]. rewrite fst_tick.
       match goal with |- S (fst (orelse ?x ?y)) <= _ => pose proof (orelse_cost _ x y) as Ho end. cbv beta in Ho.
       match goal with Da : det ic a F = true, Db : det ic b F = true |- _ =>
-        assert (H1 := IHa _ Pa Da p s c k Ks La); assert (H2 := IHb _ Pb Db p s c k Ks Lb) end.
-      rewrite Hd in H1. rewrite Nb in H2. rewrite Hd, Nb. simpl.
-      assert (H1' := H1 (fun E => False_ind _ (Bool.diff_false_true E))).
-      assert (H2' := H2 (fun E => False_ind _ (Bool.diff_false_true E))). lia.
+        assert (HA := IHa _ Pa Da p s c k Ks La); assert (HB := IHb _ Pb Db p s c k Ks Lb) end.
+      rewrite Hd in HA. rewrite Nb in HB. rewrite Hd, Nb. simpl.
+      assert (HA' := HA (fun E => False_ind _ (Bool.diff_false_true E))).
+      assert (HB' := HB (fun E => False_ind _ (Bool.diff_false_true E))). lia.
     - repeat (apply andb_true_iff in Hd; destruct Hd as [Hd ?]). apply negb_true_iff in Hd.
       cbn [first] in Hl.
-      match goal with Da : det ic a F = true |- _ => assert (H1 := IHa _ Hp Da p s c k Ks Hl) end.
-      rewrite Hd in H1. assert (H1' := H1 (fun E => False_ind _ (Bool.diff_false_true E))).
+      match goal with Da : det ic a F = true |- _ => assert (HA := IHa _ Hp Da p s c k Ks Hl) end.
+      rewrite Hd in HA. assert (HA' := HA (fun E => False_ind _ (Bool.diff_false_true E))).
       assert (Hkk : fst (k p s c) <= Ks) by (apply Hk; reflexivity).
       destruct g; cbn [mc]; rewrite fst_tick;
         match goal with |- S (fst (orelse ?x ?y)) <= _ => pose proof (orelse_cost _ x y) as Ho end; cbv beta in Ho; lia.
     - destruct a; try discriminate. cbn [first] in Hl. rewrite mc_star. rewrite fst_tick.
       assert (Hkk : fst (k p s c) <= Ks) by (apply Hk; reflexivity).
-      assert (Hbody : forall kk, fst (mc ic (RChr c0) p s c kk) <= 1).
+      assert (Hbody : forall kk : kontc R, fst (mc ic (RChr c0) p s c kk) <= 1).
       { intros kk. rewrite mc_chr. destruct s as [|x s']; [simpl; lia|].
         simpl in Hl. rewrite orb_false_r in Hl. rewrite Hl. simpl. lia. }
       destruct (List.length s) as [|j]; cbn [star_loopc].
-      + rewrite fst_tick. simpl. lia.
+      + rewrite fst_tick. cbn [bnd0]. lia.
       + destruct g; rewrite fst_tick;
           match goal with |- S (S (fst (orelse ?x ?y))) <= _ => pose proof (orelse_cost _ x y) as Ho end; cbv beta in Ho;
-          match goal with Ho : context [mc ic (RChr c0) p s c ?kk] |- _ => pose proof (Hbody kk) end; simpl; lia.
+          match goal with Ho : context [mc ic (RChr c0) p s c ?kk] |- _ => pose proof (Hbody kk) end; cbn [bnd0]; lia.
     - cbn [first] in Hl. cbn [mc]. rewrite fst_tick.
       assert (H := IHa _ Hp Hd p s c (fun p' s' c' => k p' s' ((i, (p, p')) :: c')) Ks Hl).
       assert (H' : fst (mc ic a p s c (fun p' s' c' => k p' s' ((i, (p, p')) :: c'))) <= bnd0 a + (if nullable a then Ks else 0)).
@@ -192,7 +192,7 @@ Section Det.
       replace ((S n + 1) * (Kd + 3)) with ((n + 1) * (Kd + 3) + (Kd + 3)) by ring.
       destruct s as [|x s'].
       + (* nothing left: the body fails, the continuation is called once *)
-        assert (Hb : forall kk, fst (mc ic (RChr cl) p [] c kk) <= 1) by (intros kk; rewrite mc_chr; simpl; lia).
+        assert (Hb : forall kk : kontc R, fst (mc ic (RChr cl) p [] c kk) <= 1) by (intros kk; rewrite mc_chr; simpl; lia).
         assert (Hk := Hl [] (suffix_refl []) p c).
         destruct g; rewrite fst_tick;
           match goal with |- S (fst (orelse ?x ?y)) <= _ => pose proof (orelse_cost _ x y) as Ho end; cbv beta in Ho;
@@ -216,7 +216,7 @@ Section Det.
             specialize (H G' Hd' Hl'). lia. }
           destruct g; rewrite fst_tick;
             match goal with |- S (fst (orelse ?x ?y)) <= _ => pose proof (orelse_cost _ x y) as Ho end; cbv beta in Ho; lia.
-        * assert (Hb : forall kk, fst (mc ic (RChr cl) p (x :: s') c kk) <= 1)
+        * assert (Hb : forall kk : kontc R, fst (mc ic (RChr cl) p (x :: s') c kk) <= 1)
             by (intros kk; rewrite mc_chr; rewrite M; simpl; lia).
           assert (Hk := Hl (x :: s') (suffix_refl _) p c).
           destruct g; rewrite fst_tick;
@@ -303,7 +303,7 @@ Section Det.
       repeat (apply andb_true_iff in Hdet; destruct Hdet as [Hdet ?]).
       match goal with H : disjoint_from ic (first (RChr c0)) F = true |- _ => rename H into Dcf end.
       cbn [first] in Dcf. rewrite mc_star. rewrite fst_tick.
-      assert (H := star_chr_det c0 g k F Kd Kl Dcf Le (List.length s) p s c G Hd Hl).
+      assert (HS := star_chr_det c0 g k F Kd Kl Dcf Le (List.length s) p s c G Hd Hl).
       assert (Hm : (List.length s + 1) * (Kd + 3) <= (n + 1) * (Kd + 3)) by (apply Nat.mul_le_mono; lia).
       lia.
     - cbn [mc]. rewrite fst_tick.
@@ -329,11 +329,11 @@ Section Det.
     assert (Dead : forall j p s c, live ic [d] s = false -> klive k s K ->
                fst (star_loopc (mc ic (RSeq (RChr d) rest)) g k j p s c) <= K + 3).
     { intros j p s c L Hl. assert (Hk := Hl s (suffix_refl s) p c).
-      destruct j as [|j]; cbn [star_loopc]; rewrite fst_tick; [lia|].
-      assert (Hb : forall kk, fst (mc ic (RSeq (RChr d) rest) p s c kk) <= 2).
+      destruct j as [|j]; cbn [star_loopc]; [rewrite fst_tick; lia|].
+      assert (Hb : forall kk : kontc R, fst (mc ic (RSeq (RChr d) rest) p s c kk) <= 2).
       { intros kk. cbn [mc]. rewrite fst_tick. destruct s as [|x s']; [simpl; lia|].
         simpl in L. rewrite orb_false_r in L. rewrite L. simpl. lia. }
-      destruct g;
+      destruct g; rewrite fst_tick;
         match goal with |- S (fst (orelse ?x ?y)) <= _ => pose proof (orelse_cost _ x y) as Ho end; cbv beta in Ho;
         match goal with Ho : context [mc ic (RSeq (RChr d) rest) p s c ?kk] |- _ => pose proof (Hb kk) end; lia. }
     induction j as [|j IH]; intros p s c Hn G Hl.
@@ -432,3 +432,197 @@ Section Det.
       intros s' S' p' c'. apply (Hl s' S').
   Qed.
 End Det.
+
+(* ---------------- soundness of the decided class disjointness for well-formed characters ---------------- *)
+Lemma ascii_ch_of_wf : forall x, ch_wf x = true -> (cp x < 128)%N -> x = ascii_ch (cp x).
+Proof.
+  intros [c w s d ci low] H L. unfold ch_wf in H. cbn [cp c_word c_space c_digit c_ci c_low] in *.
+  apply N.ltb_lt in L. rewrite L in H.
+  repeat (apply andb_true_iff in H; destruct H as [H ?]).
+  destruct low as [|l [|l2 low']]; try discriminate.
+  apply Bool.eqb_prop in H. match goal with E : Bool.eqb s _ = true |- _ => apply Bool.eqb_prop in E end.
+  match goal with E : Bool.eqb d _ = true |- _ => apply Bool.eqb_prop in E end.
+  repeat match goal with E : N.eqb _ _ = true |- _ => apply N.eqb_eq in E end.
+  subst. reflexivity.
+Qed.
+
+Lemma in_ascii_codes : forall c, (c < 128)%N -> In c ascii_codes.
+Proof.
+  intros c L. unfold ascii_codes. replace c with (N.of_nat (N.to_nat c)) by apply N2Nat.id.
+  apply in_map. apply in_seq. lia.
+Qed.
+
+Lemma wf_nonascii :
+  forall x, ch_wf x = true -> (128 <= cp x)%N ->
+    (c_ci x <> 0%N -> is_lower (c_ci x) = true /\ c_word x = true /\ c_space x = false /\ c_digit x = false) /\
+    (c_digit x = true -> c_word x = true /\ c_space x = false) /\
+    (c_space x = true -> c_word x = false).
+Proof.
+  intros x H L. unfold ch_wf in H. assert (E : N.ltb (cp x) 128 = false) by (apply N.ltb_ge; exact L).
+  rewrite E in H. apply andb_true_iff in H. destruct H as [H Hs]. apply andb_true_iff in H. destruct H as [Hc Hd].
+  split; [|split].
+  - intros NZ. apply N.eqb_neq in NZ. rewrite NZ in Hc. simpl in Hc.
+    apply andb_true_iff in Hc. destruct Hc as [Hc D]. apply andb_true_iff in Hc. destruct Hc as [Hc S].
+    apply andb_true_iff in Hc. destruct Hc as [Lw Wd].
+    apply negb_true_iff in D. apply negb_true_iff in S. auto.
+  - intros D. rewrite D in Hd. simpl in Hd. apply andb_true_iff in Hd. destruct Hd as [Wd S].
+    apply negb_true_iff in S. auto.
+  - intros S. rewrite S in Hs. simpl in Hs. apply negb_true_iff in Hs. exact Hs.
+Qed.
+
+(* a class that matches a character above 127 is one that [cls_nonascii] flags *)
+Lemma item_match_nonascii :
+  forall ic x it, ch_wf x = true -> (128 <= cp x)%N -> item_match ic x it = true -> item_nonascii ic it = true.
+Proof.
+  intros ic x it W L M. destruct (wf_nonascii x W L) as (Hci & _ & _).
+  destruct it as [c0 | a b | k neg]; cbn [item_match item_nonascii] in *; [| |reflexivity].
+  - apply orb_true_iff in M. destruct M as [M|M].
+    + cbn [cp_in] in M. apply N.eqb_eq in M. apply orb_true_iff. left. apply N.leb_le. lia.
+    + repeat (apply andb_true_iff in M; destruct M as [M ?]). subst. apply orb_true_iff. right.
+      match goal with E : negb (N.eqb (c_ci x) 0) = true |- _ => apply negb_true_iff in E; apply N.eqb_neq in E;
+        destruct (Hci E) as (Lw & _) end.
+      unfold is_lower, in_range in Lw. apply andb_true_iff in Lw. destruct Lw as [L1 L2].
+      apply N.leb_le in L1. apply N.leb_le in L2.
+      cbn [has_letter]. unfold is_upper, is_lower, in_range.
+      match goal with E : cp_in (c_ci x) (ILit c0) || cp_in (c_ci x - 32) (ILit c0) = true |- _ =>
+        apply orb_true_iff in E; destruct E as [E|E]; cbn [cp_in] in E; apply N.eqb_eq in E end.
+      * apply orb_true_iff. right. apply andb_true_iff. split; apply N.leb_le; lia.
+      * apply orb_true_iff. left. apply andb_true_iff. split; apply N.leb_le; lia.
+  - apply orb_true_iff in M. destruct M as [M|M].
+    + cbn [cp_in] in M. unfold in_range in M. apply andb_true_iff in M. destruct M as [_ M]. apply N.leb_le in M.
+      apply orb_true_iff. left. apply N.leb_le. lia.
+    + repeat (apply andb_true_iff in M; destruct M as [M ?]). subst. apply orb_true_iff. right.
+      match goal with E : negb (N.eqb (c_ci x) 0) = true |- _ => apply negb_true_iff in E; apply N.eqb_neq in E;
+        destruct (Hci E) as (Lw & _) end.
+      unfold is_lower, in_range in Lw. apply andb_true_iff in Lw. destruct Lw as [L1 L2].
+      apply N.leb_le in L1. apply N.leb_le in L2.
+      cbn [has_letter].
+      match goal with E : cp_in (c_ci x) (IRange a b) || cp_in (c_ci x - 32) (IRange a b) = true |- _ =>
+        apply orb_true_iff in E; destruct E as [E|E]; cbn [cp_in] in E; unfold in_range in E;
+        apply andb_true_iff in E; destruct E as [E1 E2]; apply N.leb_le in E1; apply N.leb_le in E2 end.
+      * repeat (apply andb_true_iff; split); try reflexivity; try (apply N.leb_le; lia).
+        apply negb_true_iff. apply andb_false_iff. left. apply N.ltb_ge. lia.
+      * repeat (apply andb_true_iff; split); try reflexivity; try (apply N.leb_le; lia).
+        apply negb_true_iff. apply andb_false_iff. right. apply N.ltb_ge. lia.
+Qed.
+
+Lemma cls_match_nonascii :
+  forall ic x c, ch_wf x = true -> (128 <= cp x)%N -> cls_match ic c x = true -> cls_nonascii ic c = true.
+Proof.
+  intros ic x c W L M. destruct c as [|neg items]; [reflexivity|]. destruct neg; [reflexivity|].
+  cbn [cls_match cls_nonascii] in *. rewrite xorb_false_l in M.
+  apply existsb_exists in M. destruct M as (it & In1 & M). apply existsb_exists. exists it. split; [exact In1|].
+  eapply item_match_nonascii; eauto.
+Qed.
+
+(* a class that names no code point above 127 sees such a character only through its categories *)
+Definition abstract_of (x : ch) : ch := mkCh 1114112 (c_word x) (c_space x) (c_digit x) (c_ci x) [].
+
+Lemma item_match_abstract :
+  forall ic x it, (128 <= cp x)%N -> item_explicit_nonascii it = false ->
+    item_match ic x it = item_match ic (abstract_of x) it.
+Proof.
+  intros ic x it L E. destruct it as [c0 | a b | k neg]; cbn [item_match item_explicit_nonascii] in *.
+  - apply N.leb_gt in E. cbn [cp_in abstract_of cp c_ci].
+    replace (N.eqb (cp x) c0) with false by (symmetry; apply N.eqb_neq; lia).
+    replace (N.eqb 1114112 c0) with false by (symmetry; apply N.eqb_neq; lia). reflexivity.
+  - apply N.leb_gt in E. cbn [cp_in abstract_of cp c_ci]. unfold in_range.
+    replace (N.leb (cp x) b) with false by (symmetry; apply N.leb_gt; lia).
+    replace (N.leb 1114112 b) with false by (symmetry; apply N.leb_gt; lia).
+    rewrite !andb_false_r. reflexivity.
+  - destruct k; reflexivity.
+Qed.
+
+Lemma cls_match_abstract :
+  forall ic x c, (128 <= cp x)%N -> cls_explicit_nonascii c = false ->
+    cls_match ic c x = cls_match ic c (abstract_of x).
+Proof.
+  intros ic x c L E. destruct c as [|neg items]; cbn [cls_match].
+  - cbn [abstract_of cp]. replace (N.eqb (cp x) 10) with false by (symmetry; apply N.eqb_neq; lia). reflexivity.
+  - f_equal. cbn [cls_explicit_nonascii] in E. induction items as [|it r IH]; [reflexivity|].
+    cbn [existsb] in *. apply orb_false_iff in E. destruct E as [E1 E2].
+    rewrite (item_match_abstract ic x it L E1). rewrite (IH E2). reflexivity.
+Qed.
+
+Lemma abstract_in_list : forall x, ch_wf x = true -> (128 <= cp x)%N -> In (abstract_of x) abstract_chars.
+Proof.
+  intros x W L. destruct (wf_nonascii x W L) as (Hci & Hd & Hs).
+  unfold abstract_of, abstract_chars. cbv zeta.
+  destruct (N.eq_dec (c_ci x) 0) as [Z|NZ].
+  - rewrite Z. apply in_or_app. left.
+    destruct (c_word x) eqn:Ew, (c_space x) eqn:Es, (c_digit x) eqn:Ed; simpl; auto;
+      try (destruct (Hs eq_refl); discriminate); try (specialize (Hs eq_refl); discriminate);
+      try (destruct (Hd eq_refl) as [A B]; discriminate).
+  - destruct (Hci NZ) as (Lw & Ew & Es & Ed). rewrite Ew, Es, Ed.
+    apply in_or_app. right.
+    unfold is_lower, in_range in Lw. apply andb_true_iff in Lw. destruct Lw as [L1 L2].
+    apply N.leb_le in L1. apply N.leb_le in L2.
+    replace (c_ci x) with (N.of_nat (N.to_nat (c_ci x))) by apply N2Nat.id.
+    apply (in_map (fun l => mkCh 1114112 true false false (N.of_nat l) [])). apply in_seq. lia.
+Qed.
+
+Theorem cls_disjoint_sound :
+  forall ic c1 c2 x, cls_disjoint ic c1 c2 = true -> ch_wf x = true ->
+    cls_match ic c1 x = true -> cls_match ic c2 x = false.
+Proof.
+  intros ic c1 c2 x D W M1. unfold cls_disjoint in D. apply andb_true_iff in D. destruct D as [Da Dn].
+  destruct (N.lt_ge_cases (cp x) 128) as [L|L].
+  - rewrite (ascii_ch_of_wf x W L) in *. rewrite forallb_forall in Da.
+    specialize (Da (cp x) (in_ascii_codes _ L)). cbn [cp ascii_ch] in Da.
+    rewrite M1 in Da. simpl in Da. apply negb_true_iff in Da. exact Da.
+  - destruct (cls_explicit_nonascii c1 || cls_explicit_nonascii c2) eqn:E.
+    + apply negb_true_iff in Dn. rewrite (cls_match_nonascii ic x c1 W L M1) in Dn. simpl in Dn.
+      destruct (cls_match ic c2 x) eqn:M2; [|reflexivity].
+      rewrite (cls_match_nonascii ic x c2 W L M2) in Dn. discriminate.
+    + apply orb_false_iff in E. destruct E as [E1 E2].
+      rewrite forallb_forall in Dn. specialize (Dn _ (abstract_in_list x W L)).
+      rewrite <- (cls_match_abstract ic x c1 L E1), <- (cls_match_abstract ic x c2 L E2) in Dn.
+      rewrite M1 in Dn. simpl in Dn. apply negb_true_iff in Dn. exact Dn.
+Qed.
+
+(* ---------------- the theorem for A2 ---------------- *)
+Definition wf_text (s : list ch) : Prop := Forall (fun x => ch_wf x = true) s.
+
+Theorem poly2_bounded :
+  forall ic (R : Type) r, poly2 ic r = true ->
+    forall n K p s c (k : kontc R), List.length s <= n -> wf_text s ->
+      (forall s', suffix s' s -> forall p' c', fst (k p' s' c') <= K) ->
+      fst (mc ic r p s c k) <= bound2 r n K.
+Proof.
+  intros ic R r Hp n K p s c k Hn W Hk.
+  exact (mc_bound2 ic R (fun x => ch_wf x = true) (fun c1 c2 x D G M => cls_disjoint_sound ic c1 c2 x D G M)
+                   r Hp n K p s c k Hn W Hk).
+Qed.
+
+Lemma poly2_match_bounded :
+  forall ic r s, poly2 ic r = true -> wf_text s -> fst (re_match_c ic r s) <= bound2 r (List.length s) 0.
+Proof.
+  intros ic r s Hp W. unfold re_match_c. apply poly2_bounded; auto; try (intros s' _ p' c'; simpl; lia).
+Qed.
+
+(* non-vacuity: the iteration of further names of the Numpy parameter regex, on "a, b, c" *)
+Definition re_names : re :=
+  let nm := CSet false [ILit 95%N; IRange 97%N 122%N] in
+  let nm2 := CSet false [ILit 95%N; IRange 97%N 122%N; IRange 48%N 57%N] in
+  let name := RSeq (RChr nm) (RStar true (RChr nm2)) in
+  RSeq name (RStar true (RSeq (RChr (CSet false [ILit 44%N])) (RSeq (RChr (CSet false [ICat CSpace false])) name))).
+Example names_accepted :
+  poly1 re_names = false /\ poly2 true re_names = true /\
+  re_match true re_names (str_ch "a, b, c : int") = Some (7%N, []) /\
+  fst (re_match_c true re_names (str_ch "a, b, c : int")) <= bound2 re_names 13 0.
+Proof.
+  split; [reflexivity|]. split; [vm_compute; reflexivity|]. split; [vm_compute; reflexivity|].
+  apply poly2_match_bounded; [vm_compute; reflexivity|].
+  unfold wf_text. apply Forall_forall. apply (proj1 (forallb_forall _ _)). vm_compute. reflexivity.
+Qed.
+
+(* every regular expression of the docstring parsers (regenerated from /repo), on every well-formed subject *)
+From Verif Require Import Gen.C12_regexes.
+Theorem repo_regexes_bounded :
+  forall key x s, In (key, x) all_regexes -> wf_text s ->
+    fst (re_match_c (rx_ic x) (rx_re x) s) <= bound2 (rx_re x) (List.length s) 0.
+Proof.
+  intros key x s HIn W. apply poly2_match_bounded; [|exact W].
+  assert (H := repo_regexes_meet_criterion). rewrite forallb_forall in H.
+  exact (H (key, x) HIn).
+Qed.
